@@ -152,7 +152,20 @@ func workerPath(v Variant) string {
 // by `vp run --with-repo`) pointing elsewhere, a copy of sim/go.mod with the
 // replace directive redirected is used instead (for background sweeps that must
 // not see edits made to /repo while they run). Registered commands never set it.
+var (
+	altModOnce sync.Once
+	altModPath string
+	altModErr  error
+)
+
+// repoModfile is called by the builds of all variants, which run in parallel: the
+// alternative go.mod is written once.
 func repoModfile() (string, error) {
+	altModOnce.Do(func() { altModPath, altModErr = writeRepoModfile() })
+	return altModPath, altModErr
+}
+
+func writeRepoModfile() (string, error) {
 	repo := os.Getenv("VERIF_REPO")
 	if repo == "" {
 		repo = os.Getenv("VP_RUN_REPO")
